@@ -26,10 +26,16 @@ def close(a, b, rtol, scale, what):
     return None
 
 
-def stmt_failure(desc, frame, peaks, v, offset, method, upsample=False):
-    """frame: float32 (integer valued), windows of all peaks and translated peaks inside the frame"""
+def stmt_failure(desc, frame, peaks, v, offset, method, upsample=False, crop='default'):
+    """frame: float32 (integer valued), windows of all peaks and translated peaks inside the frame; crop: 'default' or 'slicing' crop function"""
     pattern = cl.pattern_from_desc(desc)
-    run = cl.run_fast if method == 'fast' else cl.run_full
+    run0 = cl.run_fast if method == 'fast' else cl.run_full
+    run = run0
+    if crop == 'slicing':
+        from libertem_blobfinder.base.correlation import crop_disks_from_frame_slicing
+
+        def run(*a, **k):
+            return run0(*a, crop_function=crop_disks_from_frame_slicing, **k)
     base = run(pattern, frame, peaks)
     sc = float(np.abs(base[2]).max()) + 1.0
     rt = 1e-5 if method == 'fast' else 2e-4
@@ -150,15 +156,17 @@ def stmt_failure(desc, frame, peaks, v, offset, method, upsample=False):
     return None
 
 
-def mk_replay(desc, frame, peaks, v, offset, method, fail, upsample=False):
+def mk_replay(desc, frame, peaks, v, offset, method, fail, upsample=False, crop='default'):
     return {'kind': 'input', 'call': 'process_frame_%s (metamorphic)' % method,
             'args': {'pattern': desc, 'frame': np.asarray(frame, dtype=np.float64).tolist(), 'peaks': [list(map(int, p)) for p in peaks],
-                     'translation': list(map(int, v)), 'offset': float(offset), 'method': method, 'upsample': upsample}, 'failure': fail}
+                     'translation': list(map(int, v)), 'offset': float(offset), 'method': method, 'upsample': upsample, 'crop': crop}, 'failure': fail}
 
 
 def replay(body):
+    if 'frame_ints' in body.get('args', {}):
+        return cl.replay_case(body, 'C14')          # a failing input recorded by the model correspondence (cl.model_check)
     a = body['args']
-    fail = stmt_failure(a['pattern'], np.array(a['frame'], dtype=np.float32), [tuple(p) for p in a['peaks']], tuple(a['translation']), a['offset'], a['method'], a.get('upsample', False))
+    fail = stmt_failure(a['pattern'], np.array(a['frame'], dtype=np.float32), [tuple(p) for p in a['peaks']], tuple(a['translation']), a['offset'], a['method'], a.get('upsample', False), a.get('crop', 'default'))
     print(json.dumps({'failure_now': fail}, indent=1))
     if fail:
         print('VIOLATION property=C14 replay=(given)')
@@ -200,7 +208,13 @@ def run(ctx):
         for _ in range(n):
             lo_y, hi_y = c + max(0, -v[0]), fy - c - max(0, v[0])
             lo_x, hi_x = c + max(0, -v[1]), fx - c - max(0, v[1])
-            peaks.append((int(rng.integers(lo_y, hi_y + 1)), int(rng.integers(lo_x, hi_x + 1))))
+            py, px = int(rng.integers(lo_y, hi_y + 1)), int(rng.integers(lo_x, hi_x + 1))
+            # windows flush with a frame border before or after the translation (the window [p - c, p + c - 1] ends on the last row / column)
+            if rng.random() < 0.3:
+                py = int(rng.choice([lo_y, hi_y]))
+            if rng.random() < 0.3:
+                px = int(rng.choice([lo_x, hi_x]))
+            peaks.append((py, px))
         method = 'fast' if k % 2 == 0 else 'full'
         offset = float(rng.choice([1, 10, 100, 1000, 10000]))
         ctx.hist('method', method)
@@ -208,12 +222,14 @@ def run(ctx):
         ctx.hist('pattern', desc['kind'])
         upsample = int(rng.choice([4, 10, 20])) if k % 3 == 0 else False
         ctx.hist('upsample', upsample)
-        fail = stmt_failure(desc, frame, peaks, v, offset, method, upsample)
-        ctx.count(4 * n, key=(desc, fy, fx, peaks, v, offset, method, upsample))
+        crop = 'slicing' if k % 4 >= 2 else 'default'
+        ctx.hist('crop function', crop)
+        fail = stmt_failure(desc, frame, peaks, v, offset, method, upsample, crop)
+        ctx.count(4 * n, key=(desc, fy, fx, peaks, v, offset, method, upsample, crop))
         if len(ctx.cov['samples']) < 7 and k % 15 == 0:
             ctx.sample({'metamorphic_case': {'pattern': desc['kind'], 'shape': [fy, fx], 'peaks': peaks, 'translation': list(v), 'offset': offset, 'method': method}})
         if fail:
-            ctx.violation('input', fail, mk_replay(desc, frame, peaks, v, offset, method, fail, upsample))
+            ctx.violation('input', fail, mk_replay(desc, frame, peaks, v, offset, method, fail, upsample, crop))
             break
     ctx.extra['metamorphic_cases'] = nS
     return ctx.finish(
@@ -222,4 +238,4 @@ def run(ctx):
                     'of the data shift/transposes the correlation map; x-min+1 is offset invariant. Tie: pipeline model vs implementation on base/rolled/'
                     'offset inputs; oracle: translation (cyclic roll), transpose (+ swapped peaks, transposed user templates) and offsets 1..10^4 on the implementation.',
         rule='(S) random integer-valued frames up to 63x63 (square, tall, wide), 5 pattern classes, 1..4 peaks whose windows stay inside under the translation, '
-             'translations in [-3,3]^2, both methods; transposition ties (equal maxima) are recognised with the direct correlation map and not counted.')
+             'translations in [-3,3]^2, both methods, both crop functions, windows flush with the frame border before or after the translation; transposition ties (equal maxima) are recognised with the direct correlation map and not counted.')
